@@ -147,6 +147,9 @@ func bsonView(v interface{}) string {
 }
 
 func canonBSON(d bson.D) string {
+	if d == nil {
+		d = bson.D{}
+	}
 	b, err := bson.MarshalExtJSON(d, false, false)
 	if err != nil {
 		return "!" + err.Error()
@@ -227,9 +230,13 @@ func (m *monitors) checkPublishes(r *run, dts map[string]*dtInfo) {
 		if c.method != "ProcessPushPull" || (c.state != "finished" && c.state != "answered") || c.inst == nil || c.inst.dead {
 			continue
 		}
-		if r.lagging[callOwner(c)] {
+		if r.lagging[callOwner(c)] || m.pubChecked[c] {
 			continue
 		}
+		if r.hasPending(callOwner(c)) {
+			continue // its background work (notify, snapshot) has not run yet
+		}
+		m.pubChecked[c] = true
 		snap := m.callSnap[c]
 		req, _ := c.req.(*model.PushPullMessage)
 		if req == nil || snap == nil {
@@ -246,12 +253,14 @@ func (m *monitors) checkPublishes(r *run, dts map[string]*dtInfo) {
 					continue
 				}
 				mine := map[string]bool{}
+				content := map[string]string{}
 				for _, op := range p.Operations {
 					mine[opKey(op)] = true
+					content[opKey(op)] = canonOp(op)
 				}
 				var maxS uint64
 				for _, so := range di.ops {
-					if mine[opKey(so.op)] && !snap[so.doc.ID] && so.op.ID.GetCUID() == req.Cuid {
+					if mine[opKey(so.op)] && content[opKey(so.op)] == canonOp(so.op) && !snap[so.doc.ID] && so.op.ID.GetCUID() == req.Cuid {
 						if so.doc.Sseq > maxS {
 							maxS = so.doc.Sseq
 						}
